@@ -140,6 +140,14 @@ def _plan(draw, max_chain):
         ints = [x["a"] for x in items if type(x["a"]) is int] or [0]
         chain = [{"op": "mul", "k": draw(st.sampled_from([2, 3])), "r": draw(st.booleans())}] + chain[:max_chain - 2] + [
             {"op": "modify_if", "pred": ["eq", "a", draw(st.sampled_from(ints))], "pairs": [["a", ["bump", "a"]]]}]
+    if n >= 2 and draw(st.integers(0, 9)) == 0:
+        # leading sort key whose values all print differently while some are equal (2 and 2.0, 0 and -0.0, 1 and 1.0):
+        # equal is equal, the second key decides among them
+        pool = list(draw(st.permutations([2, 2.0, 1, 1.0, 0, -0.0, -1, 5, None, 0.5])))
+        for it, v in zip(items, pool):
+            it["a"] = v
+        items = items[:len(pool)]
+        chain = [{"op": "sort", "keys": [["a", draw(st.sampled_from([1, -1]))], [draw(st.sampled_from(["b", "_id"])), draw(st.sampled_from([1, -1]))]]}] + chain[:max_chain - 1]
     plan = {"items": items, "chain": chain}
     if draw(st.integers(0, 3)) == 0:
         plan["peek_items"] = draw(st.sampled_from([1, 2, 3, 7]))      # dataiter.DEFAULT_PEEK_ITEMS: head()/tail() default
